@@ -211,13 +211,24 @@ Ltac bool_simpl :=
     | rewrite xorb_false_r | rewrite xorb_false_l ].
 
 (** Solve [forall i, 0 <= i < W -> Q i] for a literal W by enumeration; [tac] closes each case. *)
-Ltac enum_rec k Hk tac :=
-  first [ exfalso; clear - Hk; lia
-        | destruct k as [|k]; [ clear Hk; tac | enum_rec k Hk tac ] ].
+Lemma range_step (P : Z -> Prop) lo hi :
+  P lo -> (forall i, lo + 1 <= i < hi -> P i) -> forall i, lo <= i < hi -> P i.
+Proof. intros H0 H i Hi. destruct (Z.eq_dec i lo) as [->|]; [assumption|apply H; lia]. Qed.
 
-Ltac enum_index n tac :=
-  let k := fresh "k" in let Hk := fresh "Hk" in
-  apply (Zrange_cases _ n); intros k Hk; enum_rec k Hk tac.
+Lemma range_nil (P : Z -> Prop) lo hi : hi <= lo -> forall i, lo <= i < hi -> P i.
+Proof. intros; lia. Qed.
+
+(** Goal [forall i, lo <= i < hi -> Q i] with literal bounds: one subgoal per index, closed by [tac]. *)
+Ltac enum_Z tac :=
+  lazymatch goal with
+  | |- forall i, ?lo <= i < ?hi -> _ =>
+      first [ apply range_nil; lia
+            | apply range_step;
+              [ tac
+              | let v := eval vm_compute in (lo + 1) in change (lo + 1) with v; enum_Z tac ] ]
+  end.
+
+Ltac enum_index n tac := enum_Z tac.
 
 Ltac bit_case :=
   cbn [Z.of_nat Pos.of_succ_nat Pos.succ];
@@ -258,3 +269,6 @@ Ltac monad_step :=
   | |- (let _ := _ in _) = _ => cbv zeta
   end.
 Ltac monad_run := repeat monad_step.
+
+(** [rev] and [popcount] are used through their specifications ([vm_compute] still evaluates them). *)
+Global Opaque rev popcount.
